@@ -770,6 +770,16 @@ class Interp:
                                 pty = self.fx.fns[m["key"]]["locals"][1]["ty"]
                                 if _value_matches_type(src, pty):
                                     key = m["key"]
+        if key is None and t.get("callee_name") == "collect" and args and isinstance(self.deref(args[0]), Iter) and self.deref(args[0]).items is not None:
+            # collect() into a workspace type: its own FromIterator impl does the work
+            dl = fr.f["locals"][t["dest"]["l"]]
+            dadt = dl.get("adt")
+            if dadt and dadt.split("::")[0] in self.fx.crates:
+                for imp in self.fx.impls:
+                    if imp.get("trait") == "core::iter::traits::collect::FromIterator" and imp.get("self_adt") == dadt:
+                        for m in imp["methods"]:
+                            if m["name"] == "from_iter" and m["key"] in self.fx.fns:
+                                key = m["key"]
         if key is None:
             r = std_model(self, p, fr, t, args)
             if r is not NotImplemented:
@@ -836,6 +846,16 @@ class Interp:
             nf.ret_to = t["target"]
             p.frames.append(nf)
             return "pushed"
+        # a call the interpreter cannot follow may write through every `&mut` it receives: what those references point at is
+        # no longer known (fail closed: a stale value would silently be taken for the current one)
+        for a_op, a_val in zip(t["args"], args):
+            if isinstance(a_val, Ref) and a_op.get("k") in ("copy", "move"):
+                aty = fr.f["locals"][a_op["pl"]["l"]]["ty"] if not a_op["pl"]["p"] else ""
+                if aty.startswith("&mut "):
+                    try:
+                        self.write_ref(a_val, Unknown("written by %s, which the interpreter cannot follow" % (t.get("callee_name") or "?")))
+                    except Exception:       # noqa: BLE001
+                        pass
         if os.environ.get("VERIF_TRACE_UNKNOWN"):
             import sys
             print("UNKNOWN-CALL %s in %s bb%d line %s: callee=%s resolved=%s self=%s args=%s" % (
@@ -1024,6 +1044,15 @@ def std_model(I, p, fr, t, args):
         if n in ("deref", "deref_mut", "as_ref", "as_slice", "as_mut", "borrow", "as_mut_slice"):
             return args[0]
         return d0 if n in ("into_vec", "to_vec", "to_owned", "unwrap_or_clone") else args[0]
+    if n in ("take", "replace", "insert", "get_or_insert") and sadt == "core::option::Option" and c.startswith("core::option::") and isinstance(args[0], Ref) \
+            and isinstance(d0, Adt) and d0.path == "core::option::Option":
+        old = d0
+        if n == "take":
+            I.write_ref(args[0], Adt("core::option::Option", "None", {}))
+            return old
+        if n == "replace" and len(args) > 1:
+            I.write_ref(args[0], Adt("core::option::Option", "Some", {"0": args[1]}))
+            return old
     if n == "take" and c.startswith("core::mem::") and isinstance(args[0], Ref):
         old = I.deref(args[0])
         I.write_ref(args[0], Vec() if isinstance(old, Vec) else (SetVal() if isinstance(old, SetVal) else Unknown("default")))
@@ -1108,6 +1137,28 @@ def std_model(I, p, fr, t, args):
             return Iter([v for _, v in d0.ordered(I.fx)])
         if n in ("iter", "iter_mut", "into_iter"):
             return Iter([Adt(None, None, {"0": k, "1": v}) for k, v in d0.ordered(I.fx)])
+    if n == "chain" and isinstance(d0, Iter) and d0.items is not None and len(args) > 1 and \
+            (t.get("callee_trait") == "core::iter::traits::iterator::Iterator" or c.startswith("core::iter::")):
+        o = I.deref(args[1])
+        if isinstance(o, Vec):
+            o = Iter(list(o.items))
+        if isinstance(o, Iter) and o.items is not None:
+            return Iter(d0.items[d0.pos:] + o.items[o.pos:])
+    if n in ("last", "first") and isinstance(d0, Vec) and c.startswith(("core::slice::", "alloc::vec::")):
+        if not d0.items:
+            return Adt("core::option::Option", "None", {})
+        return Adt("core::option::Option", "Some", {"0": d0.items[-1] if n == "last" else d0.items[0]})
+    if n == "last" and isinstance(d0, Iter) and d0.items is not None and (t.get("callee_trait") == "core::iter::traits::iterator::Iterator" or c.startswith("core::iter::")):
+        rest = d0.items[d0.pos:]
+        return Adt("core::option::Option", "Some", {"0": rest[-1]}) if rest else Adt("core::option::Option", "None", {})
+    if n in ("rotate_left", "rotate_right") and isinstance(d0, Vec) and len(args) > 1 and isinstance(I.deref(args[1]), int) and c.startswith("core::slice::"):
+        k_ = I.deref(args[1])
+        if k_ > len(d0.items):
+            return "diverge"
+        if n == "rotate_right":
+            k_ = len(d0.items) - k_
+        d0.items[:] = d0.items[k_:] + d0.items[:k_]
+        return Adt(None, None, {})
     if n == "zip" and isinstance(d0, Iter) and d0.items is not None:
         o = I.deref(args[1])
         if isinstance(o, Vec):
@@ -1217,6 +1268,12 @@ def std_model(I, p, fr, t, args):
                 return some
             if n == "is_none":
                 return not some
+            if n in ("is_some_and", "is_none_or") and isinstance(f1, FnVal):
+                if not some:
+                    return n == "is_none_or"
+                r_ = I.call_value(f1, [v], depth)
+                if isinstance(r_, bool):
+                    return r_
             if n == "map" and isinstance(f1, FnVal):
                 return Adt(OPT, "Some", {"0": I.call_value(f1, [v], depth)}) if some else Adt(OPT, "None", {})
             if n == "and_then" and isinstance(f1, FnVal):
